@@ -18,6 +18,7 @@ import (
 	"verif/harness/abci"
 	"verif/harness/hx"
 
+	mstypes "github.com/KiraCore/sekai/x/multistaking/types"
 	cryptotypes "github.com/cosmos/cosmos-sdk/crypto/types"
 	sdk "github.com/cosmos/cosmos-sdk/types"
 )
@@ -329,7 +330,16 @@ func (w *world) tx(op string, attack bool, msgs []sdk.Msg, signers []int) abci.T
 	facts, jfacts := w.facts(msgs, signers)
 	model := w.modelInput(op, msgs, signers, pre)
 	var res abci.TxResult
-	p := hx.Try(func() { res = w.c.Deliver(msgs, signers, abci.DefaultFee()) })
+	fee := abci.DefaultFee()
+	if model == "" && w.foreignFees > 0 && w.r.Chance(45) { // fees in other denoms: rewards accrue in several denoms
+		switch w.r.Intn(w.foreignFees) {
+		case 0:
+			fee = sdk.NewCoins(sdk.NewInt64Coin("ubtc", 100+int64(w.r.Intn(300))))
+		default:
+			fee = sdk.NewCoins(sdk.NewInt64Coin("xeth", 10000+int64(w.r.Intn(50000))))
+		}
+	}
+	p := hx.Try(func() { res = w.c.Deliver(msgs, signers, fee) })
 	if p != "" {
 		res = abci.TxResult{Code: 1 << 29, Log: "harness panic: " + p}
 		w.rec.panics = append(w.rec.panics, op+": "+p)
@@ -389,11 +399,44 @@ func (w *world) txForged(op string, msgs []sdk.Msg, attacker, victim int) abci.T
 	return res
 }
 
+// poolFacts: the exchange rate of every staking pool's share tokens (pre-state)
+func (w *world) poolFacts() (coq, js []string) {
+	ctx := w.ctx()
+	for _, pool := range w.c.App.MultiStakingKeeper.GetAllStakingPools(ctx) {
+		keep := sdk.OneDec().Sub(pool.Slashed)
+		seen := map[string]bool{}
+		for _, list := range [][]sdk.Coin{pool.TotalShareTokens, pool.TotalStakingTokens} {
+			for _, c := range list {
+				nd := mstypes.GetNativeDenom(pool.Id, c.Denom)
+				if seen[nd] {
+					continue
+				}
+				seen[nd] = true
+				coq = append(coq, fmt.Sprintf("FPool %s %s %s", hx.Str(mstypes.GetShareDenom(pool.Id, nd)), hx.Str(nd), hx.ZBig(keep.BigInt())))
+			}
+		}
+		// denoms never staked so far can still be compounded into this pool
+		for _, nd := range []string{"ukex", "ubtc", "xeth"} {
+			if !seen[nd] {
+				coq = append(coq, fmt.Sprintf("FPool %s %s %s", hx.Str(mstypes.GetShareDenom(pool.Id, nd)), hx.Str(nd), hx.ZBig(keep.BigInt())))
+			}
+		}
+		js = append(js, fmt.Sprintf("pool %d: 1 staked unit = %s share units", pool.Id, keep))
+	}
+	return
+}
+
 func (w *world) begin(dt int64) {
 	pre := w.snapshot()
-	p := w.c.BeginBlock(abci.BlockReq{Dt: dt, Proposer: int(w.c.Height) % len(w.c.Validators)})
+	facts, jf := w.poolFacts()
+	prop := 0 // validator 0 owns the staking pool: proposing two blocks out of three keeps reward and compounding rounds out of step
+	if w.c.Height%3 == 2 {
+		prop = 1
+	}
+	p := w.c.BeginBlock(abci.BlockReq{Dt: dt, Proposer: prop})
 	post := w.snapshot()
-	w.emit(1, "begin-block", false, nil, nil, p == "", p, pre, post, nil, nil, "")
+	jf = append(jf, w.compoundDesc...)
+	w.emit(1, "begin-block", false, nil, nil, p == "", p, pre, post, facts, jf, "")
 }
 
 func (w *world) end() {
@@ -401,7 +444,8 @@ func (w *world) end() {
 	var r abci.EndResult
 	// observe before Commit: EndBlock effects are visible on the deliver state only until Commit
 	// resets it, and afterwards on the committed state -- c.Ctx() serves both
+	facts, jf := w.poolFacts()
 	r = w.c.EndBlock()
 	post := w.snapshot()
-	w.emit(2, "end-block", false, nil, nil, r.Panic == "", r.Panic, pre, post, nil, nil, "")
+	w.emit(2, "end-block", false, nil, nil, r.Panic == "", r.Panic, pre, post, facts, jf, "")
 }
